@@ -15,6 +15,8 @@ type RaceReport struct {
 	Signature string     // unordered pair of innermost repo frames (func@file), line numbers stripped
 	RepoFiles []string   // repo-relative files appearing in either access stack
 	Text      string
+	// HarnessOnly: both conflicting accesses were made by the harness' own overlay files
+	HarnessOnly bool
 }
 
 type Frame struct {
@@ -114,6 +116,10 @@ func parseOne(block string) RaceReport {
 			inner[i] = r.Stacks[i][0].Func
 		}
 	}
+	// both accesses made by the harness' own overlay files (App Engine engine: app/zz_verif*_test.go): a race of the
+	// harness with itself, whatever real code lies further up the stacks
+	r.HarnessOnly = strings.Contains(inner[0], "@") && strings.Contains(inner[1], "@") &&
+		strings.Contains(inner[0][strings.Index(inner[0], "@"):], "/zz_verif") && strings.Contains(inner[1][strings.Index(inner[1], "@"):], "/zz_verif")
 	pair := []string{inner[0], inner[1]}
 	sort.Strings(pair)
 	r.Signature = "race:" + pair[0] + "|" + pair[1]
@@ -124,6 +130,9 @@ func parseOne(block string) RaceReport {
 // Attributed reports whether some frame of either access stack lies in one
 // of the anchored files.
 func (r RaceReport) Attributed(anchors []string) bool {
+	if r.HarnessOnly {
+		return false
+	}
 	for _, f := range r.RepoFiles {
 		for _, a := range anchors {
 			if f == a {
